@@ -29,10 +29,10 @@ REQUIRED = {'requadrature': 0.08, 'grids:same-ends-other-spacing': 0.15, 'family
 def _case(draw):
     family = draw(st.sampled_from(['emission', 'transmission', 'directimage', 'emission', 'transmission']))
     degenerate = draw(st.sampled_from([True, False, True]))
-    ng = draw(st.integers(1, 20))
+    ng = draw(S.ints(1, 20))
     wts = draw(st.lists(st.floats(0.01, 1.0), min_size=ng, max_size=ng))
     fac = [1.0] * ng if degenerate else draw(st.lists(st.floats(-2.0, 2.0), min_size=ng, max_size=ng))
-    ngauss = draw(st.integers(1, 6))
+    ngauss = draw(S.ints(1, 6))
     warp = draw(st.sampled_from([False, True, False]))
     if warp:
         # two molecules are needed, on grids of at least five points
@@ -119,6 +119,14 @@ def check(case):
         if not np.array_equal(np.asarray(rk2[1]), spec_k, equal_nan=True):
             out.fail('repeatable@' + family, 'second k-mode evaluation differs (max rel %.2e)' % maxrel(rk2[1], spec_k))
         T = np.array(mk.temperatureProfile, dtype=float, copy=True)
+        hot0 = 0.0
+        if family != 'transmission':
+            from vlib.props.c01 import RSUN as _RSUN0
+            bb0 = ref.planck_wn(Wk.wn, float(T.max()))
+            if family == 'emission':
+                hot0 = bb0 / ref.planck_wn(Wk.wn, w['star_T']) * (w['radius'] * synth.RJUP / (w['star_R'] * _RSUN0)) ** 2
+            else:
+                hot0 = bb0 * (w['radius'] * synth.RJUP) ** 2 / (2.0 * (float(mk.star.distance) * 3.08567758e16) ** 2)
         # cross-section world with the weight-averaged coefficient
         wx = copy.deepcopy(w)
         avg = float(np.sum(wts * fac))
@@ -138,7 +146,7 @@ def check(case):
                 kc.add_opacity(synth.SynthKTable(mol, wn_, Tg_, Pg_, np.repeat(tab_[..., None], len(w2), axis=-1), w2))
             with np.errstate(all='ignore'):
                 rk3 = cut(out, 'k-model@requadrature', mk.model)
-            if not close(np.asarray(rk3[1], dtype=float), spec_k, rtol=1e-9, atol=1e-300):
+            if not np.all(np.abs(np.asarray(rk3[1], dtype=float) - spec_k) <= 1e-9 * np.abs(spec_k) + 1e-12 * hot0 + 1e-300):
                 out.fail('requadrature@' + family, 'degenerate tables re-loaded with %d instead of %d points: spectrum changed (max rel %.2e)'
                          % (len(w2), len(wts), maxrel(rk3[1], spec_k)))
         Wx = cut(out, 'build-world@xsec', synth.build_world, wx, wn_per_mol=grids)
